@@ -246,6 +246,11 @@ class Folder(FileSystemItemABC):
         if (file.uuid in self.files) and not force:
             raise Exception(f"File with uuid {file.uuid} already exists in folder")
 
+        # forced: the file replaces a live namesake instead of becoming a second live file of that name
+        existing = self.get_file(file.name)
+        if existing is not None and existing.uuid != file.uuid:
+            self.remove_file(existing)
+
         # add to list
         self.files[file.uuid] = file
         self._file_request_manager.add_request(file.name, RequestType(func=file._request_manager))
